@@ -240,7 +240,9 @@ def aspectsOf (i : FmtInput) (d : Decoded) : Aspects :=
   let wordOf (o : Obs) : Str := match o.word with | some w => dropBlank w | none => z ++ dropBlank o.text
   let spaceOf (o : Obs) : Str :=
     (match o.rc.nospace with | some true => ['n'] | some false => ['s'] | none => ['-']) ++
-    (match o.read with | .ok (_, b) => if b then ['S'] else ['N'] | .error _ => ['?'])
+    (match o.read with | .ok (_, b) => if b then ['S'] else ['N'] | .error _ => ['?']) ++
+    -- a blank that ended up inside the word (zsh inside closed quotes)
+    (match o.word with | some w => if w.getLast? == some ' ' then ['B'] else [] | none => [])
   -- decoders of the line formats copy the inserted text into `display`: that is C03's, not C04's
   let displayIsInsert := i.sh == .bash || i.sh == .tcsh || i.sh == .oil || i.sh == .fish
   { c02 := srt (cand.map wordOf),
@@ -282,6 +284,25 @@ def runValue (inp out : Json) : Json :=
       let fails := if i.sh == .export then
           match Json.parse rawS with
           | .ok j => if jS j "nospace" == i.nospace then fails else fails ++ [{ prop := "C05", code := "export:nospace_set_changed", detail := showStr (jS j "nospace") }]
+          | .error _ => fails
+        else fails
+      -- elvish carries a style per candidate: its own when the shell can express it, the default otherwise -
+      -- never the style of another candidate
+      let fails := if i.sh == .elvish then
+          match Json.parse rawS with
+          | .ok j =>
+            let styleOk := jget out "styleOk"
+            let bad := (jarr j "Candidates").toList.filter (fun c =>
+              let v := jS c "Value"
+              let d := jS c "Display"
+              let st := jstr (jget c "Style")
+              let owners := i.values.filter (fun x => san Gen.elvish_sanitizer x.value == v && san Gen.elvish_sanitizer x.display == d)
+              !owners.isEmpty && !owners.any (fun x =>
+                let own := String.ofList x.style
+                st == "default" || (own != "" && jbool styleOk own && st == own)))
+            match bad.head? with
+            | some c => fails ++ [{ prop := "C04", code := "elvish:style_of_other_candidate", detail := s!"{jstr (jget c "Value")} carries style {jstr (jget c "Style")}" }]
+            | none => fails
           | .error _ => fails
         else fails
       Json.mkObj [("same", Json.bool diff.isNone), ("diff", Json.str (diff.getD "")),
